@@ -1011,7 +1011,7 @@ def own_hash():
   h = hashlib.sha1()
   h.update(histrun.tree_hash().encode())
   for p in ('harness/k1trace.py', 'harness/k1check.py', 'coq/theories/Model/ActionLog.v',
-            'coq/theories/Model/ActionLogEnc.v', 'coq/theories/Proofs/ActionLog_stage3.v'):
+            'coq/theories/Model/ActionLogEnc.v', 'coq/theories/Proofs/ActionLog_stage3.v', 'harness/da2v.py'):
     with open(os.path.join(core.VERIF, p), 'rb') as f:
       h.update(f.read())
   return h.hexdigest()[:16]
@@ -1047,6 +1047,11 @@ def _traced_run(ctx, n_hist, nb):
   problems = []        # instrumentation / engine-invariant problems (tie level)
   samples = []
   base = (ctx.seed * 7919 + 17) & 0x7fffffff
+  from harness import da2v
+  try:
+    da_table = da2v.extract_all()
+  except core.TieBroken:
+    da_table = None            # reported by regenerate()
   with k1trace.instrumented():
     for i in range(n_hist):
       r = random.Random(base * 100003 + i)
@@ -1107,6 +1112,15 @@ def _traced_run(ctx, n_hist, nb):
           stats['ev:' + evt[0]] += 1
           if evt[0] == 'doc':
             stats['doc:' + evt[1][0]] += 1
+            # differential validation of the regenerated effect programs: the undo actions the engine appended for this
+            # doc action are one of the paths extracted from docactions.py
+            if da_table is not None and evt[1][0] in da_table:
+              if da2v.undo_kinds_ok(da_table, evt[1], evt[2]):
+                stats['gen-effects:undo-kinds-agree'] += 1
+              else:
+                stats['gen-effects:undo-kinds-DIFFER'] += 1
+                problems.append({'what': 'regenerated effect program of %s does not produce the undo actions the engine '
+                                         'appended: %r' % (evt[1][0], [u[0] if u else None for u in evt[2]]), 'bundle': bundle})
         # the tie
         traced = False
         try:
